@@ -3,6 +3,7 @@ import WV.Gen.T_Manager
 import WV.Gen.T_Connector
 import WV.Gen.T_Terminator
 import WV.Gen.T_DCP
+import WV.Gen.T_TrafficTimer
 import WV.Gen.Flags
 import WV.Gen.Consts
 
@@ -13,7 +14,7 @@ Model of one side: `_terminator.py` (the generated Terminator table, `stop_dilat
 `_dilation/manager.py` (`Dilator.dilate/stop/got_key/got_wormhole_versions/received_dilate`;
 `Manager`: the generated table with the bodies of all fourteen outputs, `got_wormhole_versions`,
 `fail`, `received_dilation_message`, `connector_connection_made/lost`, `_stop_using_connection`,
-`when_stopped`; of the TrafficTimer only "the leader starts its ping timer"), `_dilation/connector.py` (generated Connector
+`when_stopped`; the ping-timer handle `_timer` with `_send_ping_reset_timer`, the expiry callback and `_signal_reconnect`; of the TrafficTimer the generated `interval_elapsed` rows), `_dilation/connector.py` (generated Connector
 table, `start`, `_start_listener`, `_use_hints/_schedule_connection/_connect`, `consider`,
 `select_and_stop_remaining`, `stop_everything` and its four parts), `connection.py`
 (`DilatedConnectionProtocol`: generated table, `set_manager`, `disconnect`, `connectionLost`),
@@ -32,12 +33,13 @@ namespace WV.C17
 open WV WV.Gen
 
 inductive Err where
-  | noTransition | assertion | attribute | value | onlyOnce | recursion
+  | noTransition | assertion | attribute | value | onlyOnce | recursion | alreadyCalled
   deriving DecidableEq, Repr
 
 def Err.name : Err → String
   | .noTransition => "NoTransition" | .assertion => "AssertionError" | .attribute => "AttributeError"
   | .value => "ValueError" | .onlyOnce => "CanOnlyDilateOnceError" | .recursion => "model-recursion"
+  | .alreadyCalled => "AlreadyCalled"
 
 /-- the peer's `versions` dict, as far as the code looks at it: its truthiness and
     `.get("can-dilate", [])` -/
@@ -53,6 +55,12 @@ inductive Msg where
   | reconnect
   | reconnecting
   | unknown
+  deriving DecidableEq, Repr
+
+/-- the ping-timer handle `Manager._timer`: None, a DelayedCall that is still pending, or one that
+    has already fired (`.cancel()` / `.delay()` on it raise AlreadyCalled) -/
+inductive Timer where
+  | none | pending | fired
   deriving DecidableEq, Repr
 
 /-- `OneShotObserver._result` of `Manager._main_channel` -/
@@ -121,7 +129,8 @@ structure World where
   dver : Option String
   role : Option Bool              -- some true = LEADER
   conn : Option Nat               -- `_connection`
-  timer : Bool                    -- `_timer is not None`
+  timer : Timer                   -- `_timer`
+  tt : Option TrafficTimer.State  -- `_traffic` (Leader only)
   madeFirst : Bool
   main : MainRes
   mainObs : List Nat              -- waiting connect() calls
@@ -148,7 +157,7 @@ structure World where
 def World.init (noListen asyncListen : Bool) (mySide : String) : World :=
   { noListen := noListen, asyncListen := asyncListen, mySide := mySide,
     called := false, hasMgr := false, pKey := false, pVers := none, pMsgs := [],
-    ms := Manager.init, key := false, dver := none, role := none, conn := none, timer := false,
+    ms := Manager.init, key := false, dver := none, role := none, conn := none, timer := .none, tt := none,
     madeFirst := false, main := .noResult, mainObs := [], fired := false, stoppedObs := 0, nextGen := 0,
     ctors := [], listeners := [], attempts := [], conns := [], queue := [],
     ts := Terminator.init, closed := 0, waiters := [], wnames := [], eps := [], registered := [], log := [] }
@@ -288,6 +297,35 @@ def withConnector (w : World) (f : Nat → Res) : Res :=
 
 /-! ## Manager -/
 
+/-- `if self._timer is not None: [if self._timer.active():] self._timer.cancel(); self._timer = None` —
+    `checksActive` says whether the working tree asks `.active()` first.  Cancelling a DelayedCall
+    that has fired raises AlreadyCalled (and the handle stays). -/
+def cancelTimer (checksActive : Bool) (w : World) : Res :=
+  match w.timer with
+  | .fired => if checksActive then ({ w with timer := .none }, none) else (w, some .alreadyCalled)
+  | _ => ({ w with timer := .none }, none)
+
+/-- `Manager._send_ping_reset_timer` (TrafficTimer output `begin_timing`): send a Ping, then start
+    the interval timer or extend the running one.  Today: `if self._timer is None: callLater(...)
+    else: self._timer.delay(...)`; with `ping_timer_checks_active`: `if self._timer is not None and
+    self._timer.active(): delay(...) else: callLater(...)`. -/
+def beginTiming (w : World) : Res :=
+  if Flags.ping_timer_checks_active then ({ w with timer := .pending }, none)
+  else match w.timer with
+    | .fired => (w, some .alreadyCalled)
+    | _ => ({ w with timer := .pending }, none)
+
+/-- `Manager._signal_reconnect` (TrafficTimer output `signal_reconnect`) -/
+def signalReconnect (w : World) : World :=
+  match w.conn with
+  | some c => disconnect c w
+  | none => w
+
+def ttOuts : List TrafficTimer.Output → World → Res
+  | [], w => (w, none)
+  | .begin_timing :: os, w => andThen (beginTiming w) (ttOuts os)
+  | .signal_reconnect :: os, w => ttOuts os (signalReconnect w)
+
 def mOut (side : String) (n : Nat) (o : Manager.Output) (w : World) : Res :=
   match o with
   | .send_please =>
@@ -306,7 +344,7 @@ def mOut (side : String) (n : Nat) (o : Manager.Output) (w : World) : Res :=
   | .use_hints => withConnector w fun g => cInput noMade g .got_hints n w
   | .stop_connecting => withConnector w fun g => cInput noMade g .k_stop 0 w
   | .abandon_connection =>
-    let w1 := { w with timer := false }
+    andThen (cancelTimer Flags.abandon_checks_active w) fun w1 =>
     match w1.conn with
     | none => (w1, some .attribute)
     | some c => (disconnect c w1, none)
@@ -327,9 +365,11 @@ def mInput (i : Manager.Input) (side : String) (n : Nat) (w : World) : Res :=
   | none => (w, some .noTransition)
   | some (s', outs) => mOuts side n outs { w with ms := s' }
 
-/-- the leader's `TrafficTimer.got_connection()` starts the ping timer (the TrafficTimer itself
-    belongs to C16) -/
-def startPingTimer (w : World) : World := if w.role = some true then { w with timer := true } else w
+/-- the Leader's `self._traffic.got_connection()` (creating the TrafficTimer first if need be):
+    `no_connection --got_connection--> connected [begin_timing]`.  Which rows `got_connection` /
+    `lost_connection` have is C16's; here they are taken as that row and `… --> no_connection []`. -/
+def startPingTimer (w : World) : Res :=
+  if w.role = some true then beginTiming { w with tt := some .connected } else (w, none)
 
 /-- the end of `connector_connection_made`: remember the connection, fire `_main_channel` once -/
 def useConnection (c : Nat) (w : World) : Res :=
@@ -338,13 +378,16 @@ def useConnection (c : Nat) (w : World) : Res :=
 
 /-- `Manager.connector_connection_made(c)` -/
 def connectionMade (c : Nat) (w : World) : Res :=
-  andThen (mInput .connection_made "" 0 (startPingTimer w)) (useConnection c)
+  andThen (startPingTimer w) fun w1 =>
+  andThen (mInput .connection_made "" 0 w1) (useConnection c)
 
 /-- `Manager.connector_connection_lost()` -/
 def connectionLost (w : World) : Res :=
-  -- `_stop_using_connection`: cancel the timer, forget the connection; `Outbound.stop_using_connection`
-  -- dereferences its own `_connection`
-  let w2 := { w with timer := false, conn := none }
+  -- `self._traffic.lost_connection()`, then `_stop_using_connection`: cancel the timer, forget the
+  -- connection; `Outbound.stop_using_connection` dereferences its own `_connection`
+  let w0 := { w with tt := w.tt.map fun _ => TrafficTimer.State.no_connection }
+  andThen (cancelTimer Flags.stop_using_checks_active w0) fun w1 =>
+  let w2 := { w1 with conn := none }
   if w.conn.isNone then (w2, some .attribute) else
   if w2.role = some true then mInput .connection_lost_leader "" 0 w2
   else mInput .connection_lost_follower "" 0 w2
@@ -494,6 +537,7 @@ inductive Ev where
   | elisten (k : Nat)                      -- `.listen(f)` on held endpoint k
   | term (i : Terminator.Input)
   | turn
+  | expire                  -- the ping interval is over: the pending DelayedCall `_timer` fires
   | lready (k : Nat)        -- the listen() Deferred of listener k fires (asynchronous endpoints only)
   | inbound (k : Nat)       -- the peer connects to listener k
   | dial (j : Nat)          -- attempt j's delay is over: `_connect` calls `ep.connect`
@@ -531,6 +575,16 @@ def step (w : World) : Ev → World × Out
     | some (l, name) => if l then (connectAs (some name) w, .done) else (w, .refused "not-listener")
   | .term i => ofRes (tInput termFuel i w)
   | .turn => (turn w, .done)
+  | .expire =>
+    if w.timer ≠ .pending then (w, .refused "no-timer") else
+    -- the callback: today it clears the handle first; then `self._traffic.interval_elapsed()`
+    let w1 := { w with timer := if Flags.timer_expiry_clears_handle then Timer.none else Timer.fired }
+    match w1.tt with
+    | none => (w1, .done)
+    | some st =>
+      match TrafficTimer.table st .interval_elapsed with
+      | none => (w1, .raised .noTransition)
+      | some (st', outs) => ofRes (ttOuts outs { w1 with tt := some st' })
   | .lready k =>
     match w.listeners[k]? with
     | none => (w, .refused "no-such")
@@ -625,6 +679,13 @@ def MY_SIDE : String := "8000000000000000"
 def b01 (b : Bool) : String := if b then "1" else "0"
 def flag (b : Bool) (c : String) : String := if b then c else "-"
 
+def showTimer : Timer → String
+  | .none => "none" | .pending => "pending" | .fired => "fired"
+
+def showTT : Option TrafficTimer.State → String
+  | some s => TrafficTimer.State.name s
+  | none => "-"
+
 def showMain : MainRes → String
   | .noResult => "none" | .fired => "ok" | .failed => "err"
 
@@ -653,8 +714,8 @@ def showWorld (w : World) : String :=
         | some c => toString c | none => "-"
       let ver := match w.dver with
         | some v => v | none => "-"
-      s!"M={Manager.State.name w.ms} key={b01 w.key} ver={ver} role={role} conn={conn} timer={b01 w.timer} main={showMain w.main} fired={b01 w.fired}"
-    else "M=- key=0 ver=- role=- conn=- timer=0 main=- fired=0"
+      s!"M={Manager.State.name w.ms} key={b01 w.key} ver={ver} role={role} conn={conn} timer={showTimer w.timer} tt={showTT w.tt} main={showMain w.main} fired={b01 w.fired}"
+    else "M=- key=0 ver=- role=- conn=- timer=none tt=- main=- fired=0"
   let cs := (enumFrom 0 w.ctors).map fun (g, st) => showCtor w g st
   s!"{mgr} T={Terminator.State.name w.ts} closed={w.closed} D={b01 w.pKey}{b01 w.pVers.isSome}{w.pMsgs.length} W=[{" ".intercalate (w.waiters.map showW)}] E={w.eps.length} R=[{" ".intercalate w.registered}] C=[{" | ".intercalate cs}]"
 
@@ -682,6 +743,7 @@ def readEv? : List String → Option Ev
   | ["econnect", k] => k.toNat?.map .econnect
   | ["elisten", k] => k.toNat?.map .elisten
   | ["turn"] => some .turn
+  | ["expire"] => some .expire
   | ["t", i] => (Terminator.Input.ofName? i).map .term
   | ["lready", k] => k.toNat?.map .lready
   | ["inbound", k] => k.toNat?.map .inbound
